@@ -701,6 +701,9 @@ class Interp:
                 c = Coll(a.kind, list(a.entries), self.serial())
                 c.entries += self.iterate(b) or []
                 return c
+            if isinstance(a, Coll) and isinstance(b, (Coll, Tup, Sym)) and isinstance(e.op, ast.Sub):
+                # set difference: the elements of `a` that are kept (which ones is not modelled)
+                return Coll(a.kind, [(x, f_and([gx, self.mk_atom(f"kept-by-difference({show_term(term_of(x))})", kind="setop", node=e)])) for x, gx in a.entries], self.serial())
             if isinstance(a, Const) and isinstance(b, Const) and isinstance(e.op, ast.Add) and isinstance(a.value, str) and isinstance(b.value, str):
                 return Const(a.value + b.value)
             if isinstance(e.op, ast.Add) and (isinstance(a, Const) and isinstance(a.value, str) or isinstance(b, Const) and isinstance(b.value, str)):
